@@ -106,10 +106,13 @@ func (s *Syncer) readDBI(txn *lmdb.Txn, dbiName, origDBIName string, rawValues b
 	}
 	l.WithField("entries", stat.Entries).Debug("Reading DBI")
 
-	// Always enable txn.RawRead so that the slices point directly into the
-	// LMDB pages, since we will copy the values into the snapshot.DBI anyway.
+	// Enable txn.RawRead so that the slices point directly into the LMDB
+	// pages, since we will copy the values into the snapshot.DBI anyway.
+	// Not for raw application values: these can be empty, and lmdb-go touches
+	// the first byte of a RawRead value, which for an empty value at the very
+	// end of the data file lies outside the file (SIGBUS).
 	restoreRawRead := txn.RawRead
-	txn.RawRead = true
+	txn.RawRead = !rawValues
 	defer func() {
 		txn.RawRead = restoreRawRead
 	}()
